@@ -296,10 +296,10 @@ class C10(Prop):
                     ok = ok | {"ClientDisconnect"}
                 if op in ("json",):
                     ok = ok | ({exp["json"][1]} if exp["json"][0] == "exc" else set())
-                if op in ("form", "close"):
+                if op == "form":
                     ok = ok | ({exp["form"][1]} if exp["form"][0] == "exc" else set())
-                if op == "close" and disc and iface == "asgi":
-                    ok = ok | {"ClientDisconnect"}
+                if op == "close":
+                    ok = set()      # close() never raises
                 if val not in ok:
                     ctx.violate("C10|%s|exception-not-allowed|%s" % (where, val), "got %s(%s), allowed %s" % (val, extra, sorted(ok)))
                 continue
@@ -404,12 +404,8 @@ class C10(Prop):
                     else:
                         p = exp["form"]
                     st["form"] = p
-            else:  # close
-                f = st["form"]
-                if f is not None and f[0] == "exc" and asgi:
-                    p = ("ok-or", f[1])
-                else:
-                    p = ("ok", None)
+            else:  # close: "can always be called, regardless of whether you use form or not"
+                p = ("ok", None)
             preds.append(p)
         for (tid, step, op, arg, kind_, val, extra), p in zip(results, preds):
             got = ("ok",) if kind_ == "ok" else ("exc", val)
